@@ -149,6 +149,14 @@ func crashMode(t *testing.T, rec *Recorder) {
 		_ = os.Chdir(orig)
 		rec.Emit("scen.begin", F{"id": sc.ID, "name": sc.Name, "sname": SafeName(sc.Name), "lines": sc.Lines, "lineN": sc.LineN, "words": sc.Words, "gates": total})
 		rec.Emit("crash.ref", F{"files": reffs, "gates": total, "err": fmt.Sprint(err)})
+		// reference of a later, smaller save of the same test (see crash.resave below)
+		small := childSpec{Name: sc.Name, Lines: 0, LineN: 0, Words: 1}
+		ref2 := filepath.Join(base, "ref2")
+		_ = os.MkdirAll(ref2, 0o775)
+		_, _, _, _ = runChild(ref2, small)
+		_ = os.Chdir(ref2)
+		rec.Emit("crash.ref2", F{"files": snapshotDir(sc.Name)})
+		_ = os.Chdir(orig)
 		points := sc.Points
 		if len(points) == 0 {
 			for k := 1; k <= total+1; k++ {
@@ -183,6 +191,14 @@ func crashMode(t *testing.T, rec *Recorder) {
 			fs := snapshotDir(sc.Name)
 			_ = os.Chdir(orig)
 			rec.Emit("crash.run", F{"k": k, "killed": killed, "gate": gate, "err": fmt.Sprint(err), "files": fs})
+			if killed && (len(points) <= 24 || k%5 == 0) {
+				// the test is run again later and saves a (smaller) failure, uninterrupted, into the directory the killed run left behind
+				_, _, _, err2 := runChild(d, small)
+				_ = os.Chdir(d)
+				fs2 := snapshotDir(sc.Name)
+				_ = os.Chdir(orig)
+				rec.Emit("crash.resave", F{"k": k, "err": fmt.Sprint(err2), "files": fs2})
+			}
 			_ = os.RemoveAll(d)
 		}
 		rec.Emit("scen.end", F{"id": sc.ID})
